@@ -422,6 +422,9 @@ def rule_blocker_recorded(chk, prog):
 
 def run(chk):
     prog = chk.load()
+    from .c16 import run_subjects
+    # the predicates that decide which visibility edges exist (valid-region wedge, blocking test)
+    run_subjects(chk, prog, chk.tier, rule_id="VIS-PREDICATES", only=["inValidRegion", "cornerSide", "vecDir"], floor=3)
     rule_bend_symmetry(chk, prog, chk.tier)
     rule_blocker_recorded(chk, prog)
     rule_euclid(chk, prog)
